@@ -49,6 +49,40 @@ def compute(facts, crates=None, rounds=2):
     return out
 
 
+def closed_trait_summaries(facts, summaries):
+    """A call through a trait the crate does not export (`T: CharsetRange`, `<T as CharsetRange>::n_left` -- MIR names the
+    trait method) can only land in one of the impls the analysed crates contain.  If every impl of such a trait has a
+    return summary for the method, the hull of those summaries is a summary of the trait method.  -> {trait method path: range}"""
+    closed = {r["path"] for r in facts.records("trait") if not r.get("reachable", True)}
+    if not closed:
+        return {}
+    impls = {}
+    for r in facts.records("impl"):
+        t = r.get("trait")
+        if t in closed:
+            impls.setdefault(t, []).append(r)
+    out = {}
+    for t, rs in impls.items():
+        if any(not r.get("mono", True) and "<" in r["self_ty"] and False for r in rs):
+            continue
+        methods = set()
+        for r in rs:
+            methods |= {m for m in (r.get("items") or [])}
+        for m in methods:
+            rng = None
+            ok = True
+            for r in rs:
+                key = f"<{r['self_ty']} as {t}>::{m}"
+                sr = summaries.get(key)
+                if sr is None:
+                    ok = False      # this impl has no summary (or inherits a default method): nothing to say
+                    break
+                rng = sr if rng is None else hull(rng, sr)
+            if ok and rng is not None:
+                out[f"{t}::{m}"] = rng
+    return out
+
+
 def getters(facts, crates=None):
     """plain field getters: `fn f(&self) -> int { self.a.b }` -> the MIR projection list of the returned place"""
     from .mir import op_place
@@ -242,6 +276,7 @@ def register(facts, crates=None):
     intervals.RET_FACTS.update(facts._ret_facts)
     if getattr(facts, "_retsum", None) is None:
         facts._retsum = compute(facts, crates)
+        facts._retsum.update(closed_trait_summaries(facts, facts._retsum))
     intervals.RET_RANGES.clear()
     intervals.RET_RANGES.update(facts._retsum)
     return facts._retsum
